@@ -36,6 +36,8 @@ func main() {
 		famC20(g, o, *n, *thorough)
 	case "c16":
 		famC16(g, o, *n, *thorough)
+	case "c10":
+		famC10(g, o, *n, *thorough)
 	case "c04":
 		famC04(g, o, *n, *thorough)
 	case "c03":
